@@ -65,6 +65,32 @@ oracle_dialect.update_keywords_set_from_multiline_string(
     "unreserved_keywords", oracle_unreserved_keywords
 )
 
+# Keywords which grammar elements of this dialect (including inherited
+# ones) refer to, but which are in neither keyword set.
+oracle_dialect.sets("unreserved_keywords").update(
+    [
+        "AUTHENTICATION",
+        "BUILD",
+        "COST",
+        "CREDENTIAL",
+        "EXCEPTIONS",
+        "FIREWALL",
+        "FOLDER",
+        "GRAINED",
+        "GRAPH",
+        "HASH",
+        "MANAGEMENT",
+        "METADATA",
+        "NOTIFICATION",
+        "RETENTION",
+        "SCALAR",
+        "SETTINGS",
+        "STEP",
+        "TUNING",
+        "TYPENAME",
+    ]
+)
+
 oracle_dialect.sets("bare_functions").clear()
 oracle_dialect.sets("bare_functions").update(
     [
